@@ -52,7 +52,7 @@ def date_join(a, b, j):
 
 
 JOINS = ["-", " - ", "to", "bis", "until", "between", "zwischen", "von", "from"]
-CONTEXTS = [("date", "8.5.2018 "), ("tomorrow", "tomorrow "), ("weekday", "monday "), ("none", ""), ("yearend", "31.12.2018 "), ("leapday", "28.2.2020 "), ("monthend", "30.4.2019 ")]
+CONTEXTS = [("date", "8.5.2018 "), ("tomorrow", "tomorrow "), ("weekday", "monday "), ("on_weekday", "on monday "), ("am_wochentag", "am montag "), ("none", ""), ("yearend", "31.12.2018 "), ("leapday", "28.2.2020 "), ("monthend", "30.4.2019 ")]
 
 
 def ctx_day(ctx, ts):
@@ -67,7 +67,7 @@ def ctx_day(ctx, ts):
         return date(2019, 4, 30)
     if ctx == "tomorrow":
         return refcal.add_days(d, 1)
-    if ctx == "weekday":
+    if ctx in ("weekday", "on_weekday", "am_wochentag"):
         return refcal.next_weekday_strict(d, 0)
     return None
 
@@ -116,6 +116,8 @@ def plan(tier, seed):
                         for cname, cprefix in CONTEXTS:
                             if cname in ("yearend", "leapday", "monthend") and (vname == "digits" or (tier == "quick" and j not in ("-", "bis"))):
                                 continue  # roll-over days: explicit clock notations (quick: two joiners)
+                            if cname in ("on_weekday", "am_wochentag") and (j not in ("-", "to", "bis") or vname == "digits"):
+                                continue  # connector + weekday in front of the range: three joiners, explicit clock notations (bare numbers behind 'on monday' also read as days of the month)
                             yield ("clock", cprefix + date_join(ta, tb, j), (ha, ma), (hb, mb), (j, vname, cname), TS)
         for alt, side in bounds:
             for x in xs:
@@ -191,23 +193,28 @@ def run_case(case):
             if ha <= 12 and hb <= 12 and B0 + timedelta(hours=12) > A:
                 ends.append(B0 + timedelta(hours=12))
         sig = {"kind": "clock_range", "context": cname, "variant": vname, "joiner": j, "wrap": wrap}
-        ok = False
-        why = "not_an_interval"
-        if got is not None and got[0] == "I" and got[1] is not None and got[2] is not None and None not in got[1][1:5] and None not in got[2][1:5]:
-            s, e = _dt(got[1]), _dt(got[2])
-            if s != A:
-                why = "start_differs"
-            elif not (s < e):
-                why = "inverted"
-            elif e - s > timedelta(hours=24):
-                why = "longer_than_24h"
-            elif e not in ends:
-                why = "end_differs"
-            else:
-                ok = True
+
+        def judge(got):
+            if got is not None and got[0] == "I" and got[1] is not None and got[2] is not None and None not in got[1][1:5] and None not in got[2][1:5]:
+                s, e = _dt(got[1]), _dt(got[2])
+                if s != A:
+                    return False, "start_differs"
+                if not (s < e):
+                    return False, "inverted"
+                if e - s > timedelta(hours=24):
+                    return False, "longer_than_24h"
+                if e not in ends:
+                    return False, "end_differs"
+                return True, None
+            return False, "not_an_interval"
+
+        ok, why = judge(got)
         out = {"o": "clock:" + ("ok" if ok else why), "nt": wrap}
         if not ok:
             sig["why"] = why
+            if cname in ("on_weekday", "am_wochentag"):
+                # is it the default depth limit that loses the reading?  (the same text without the limit)
+                sig["cause"] = "depth_limit_truncation" if judge(res_obs(parse(text, ts, max_stack_depth=0)))[0] else "other"
             out["v"] = [viol(sig, "{!r} at {} -> {} expected start {} end in {}".format(text, case[-1], fmt(got), A.isoformat(), [x.isoformat() for x in ends]), [A.isoformat()] + [x.isoformat() for x in ends], got)]
         return out
     if kind == "dtdt":
